@@ -86,7 +86,7 @@ def mc(chk, senders, per, variant, mode, nested, fails, yields, expect_violation
 
 
 def apalache(chk, quick):
-    """Unbounded part: Apalache checks that Inv (TypeOK, LockOwner, Covered) of DispatchCore.tla - the counter abstraction that
+    r"""Unbounded part: Apalache checks that Inv (TypeOK, LockOwner, Covered) of DispatchCore.tla - the counter abstraction that
     Dispatch.tla refines (TLC: RefinesCore) - is an inductive invariant for 3 senders and ANY number of events, and that it
     implies NothingStranded.  Obligations: Init => Inv; Inv /\ Next => Inv'; Inv => NothingStranded."""
     import subprocess
@@ -123,7 +123,7 @@ def apalache(chk, quick):
 
 # ---- real executions ------------------------------------------------------------------------
 def _run_thread_job(job):
-    n, per, plan, sched = job
+    n, per, plan, sched = job[:4]
     try:
         r = dispatch.run_threads(n, per, plan, sched)
     except Exception as e:  # noqa: BLE001
@@ -131,6 +131,7 @@ def _run_thread_job(job):
     r["schedule"] = sched
     r["plan"] = plan
     r["mode"] = "threads"
+    r["all_hot"] = job[4] if len(job) > 4 else True
     return r
 
 
@@ -146,23 +147,30 @@ def _run_async_job(job):
     return r
 
 
-def explore_threads(pool, n, per, plan, max_preempt, cap, rng):
+def explore_threads(pool, n, per, plan, max_preempt, cap, rng, hot_cap=None):
     base = _run_thread_job((n, per, plan, []))
     if "error" in base:
         raise tlc.MachineryError(base["error"])
     runs = [base]
     frontier = [base]
     for _ in range(max_preempt):
-        jobs = []
+        hot, cold = [], []
         for r in frontier:
             last = r["schedule"][-1][0] if r["schedule"] else 0
             for g in range(last + 1, r["steps"] + 1):
                 cur = r["who_at"][g - 1]
                 for t in range(1, n + 1):
                     if t != cur:
-                        jobs.append((n, per, plan, r["schedule"] + [(g, t)]))
+                        # preemptions right before a line that touches the lock or the queue come first (a preemption
+                        # elsewhere is equivalent to one at the next such line): a schedule is "hot" when all of its
+                        # preemptions are; the others fill what is left of the budget
+                        ishot = r["hot_at"][g - 1] and r.get("all_hot", True)
+                        (hot if ishot else cold).append((n, per, plan, r["schedule"] + [(g, t)], ishot))
+        jobs = hot + cold
         if cap and len(jobs) > cap:
-            jobs = rng.sample(jobs, cap)
+            hcap = hot_cap or cap
+            hot = hot if len(hot) <= hcap else rng.sample(hot, hcap)
+            jobs = hot + (rng.sample(cold, min(len(cold), max(0, cap - len(hot)))))
         frontier = [r for r in pool.map(_run_thread_job, jobs, chunksize=64)]
         bad = [r for r in frontier if "error" in r]
         if bad:
@@ -202,6 +210,14 @@ def explore_asyncio(pool, n, per, plan, yields, cap):
 
 def validate(chk, runs, n, per, mode, label, shards=4):
     """TLC trace validation of a group of executions sharing (senders, per-sender, mode)."""
+    # many schedules lead to the same observable execution: each distinct one is validated once (the verdict is
+    # about the observed lines only), and stands for all the schedules that produced it
+    total = len(runs)
+    first = {}
+    for r in runs:
+        first.setdefault(json.dumps(r["lines"], sort_keys=True), r)
+    runs = list(first.values())
+    chk.cov_add("distinct_executions_validated", len(runs))
     wd = tlc.workdir("dcfg")
     try:
         cfg = os.path.join(wd, "t.cfg")
@@ -210,7 +226,7 @@ def validate(chk, runs, n, per, mode, label, shards=4):
                                     payload=lambda r: {"lines": r["lines"]})
     finally:
         shutil.rmtree(wd, ignore_errors=True)
-    chk.cov_add("traces_validated_against_impl", len(runs))
+    chk.cov_add("traces_validated_against_impl", total)
     chk.cov_add("trace_states", st["distinct"])
     chk.cov_add("states", st["distinct"])
     chk.cov_add("transitions", st["states"])
@@ -318,7 +334,8 @@ def run(pid, tier, seed, replay):
                 if per == 1 and "2:1" in plan.get("fail", []) and n < 2:
                     continue
                 cap = (300 if quick else 20000) if (n, per) != (2, 1) else (1200 if quick else None)
-                runs += explore_threads(pool, n, per, plan, 2 if quick else (3 if (n, per) == (2, 1) else 2), cap, rng)
+                runs += explore_threads(pool, n, per, plan, 2 if quick else (3 if (n, per) == (2, 1) else 2), cap, rng,
+                                        hot_cap=(3000 if quick else None))
             chk.cov_add("thread_schedules", len(runs))
             validate(chk, runs, n, per, "threads", "thread schedules", shards=4 if quick else 12)
         # 3. asyncio tasks, every choice of ready handle
